@@ -152,7 +152,7 @@ pub fn sync_calls(hist: &History) -> BTreeMap<u16, Vec<SyncCall<'_>>> {
                         cancelled.push(false);
                     }
                 }
-                Op::Cancel { slot } | Op::DropConsumer { slot } => {
+                Op::Cancel { slot } | Op::DropConsumer { slot, .. } => {
                     if *slot < tag_channel.len() && !cancelled[*slot] {
                         cancelled[*slot] = true;
                         push(tag_channel[*slot], Want::CancelOk);
